@@ -77,7 +77,7 @@ def injected(e):
     return isinstance(e, OSError) and "verif: injected" in str(e)
 
 
-def run_scenario(ctx, calls, script_tag, events, overlap=None, send_fail=None):
+def run_scenario(ctx, calls, script_tag, events, overlap=None, send_fail=None, ext=False):
     """send_fail = n: the server's send() raises OSError for the n-th forwarded event (the transport is gone). The event
     counts as forwarded (the wrapper had updated its state before awaiting the server); the caller sees the OSError."""
     """overlap = i: calls[i] is suspended inside the server's send() while calls[i+1] runs to completion, then resumed.
@@ -113,13 +113,17 @@ def run_scenario(ctx, calls, script_tag, events, overlap=None, send_fail=None):
             await Never()  # the server's send() is slow: another task may use the socket meanwhile
             in_send[0] = False
 
-    ws = WebSocket({"type": "websocket", "headers": [], "path": "/", "query_string": b""}, receive, send)
+    scope = {"type": "websocket", "headers": [], "path": "/", "query_string": b""}
+    if ext:
+        # the server offers the denial-response extension: nothing about the wrapper's own operations changes
+        scope["extensions"] = {"websocket.http.response": {}}
+    ws = WebSocket(scope, receive, send)
     # model state
     c, a = "CONNECTING", "CONNECTING"
     gens = {}
     returned_frames = []      # payloads handed to the application, in order
     consumed_frames = []      # data frames taken from the server, in order
-    case = {"calls": list(calls), "overlap_at": overlap, "server_send_fails_at": send_fail, "script": [e.get("type", "")[10:] + ("/" + ("text" if e.get("text") is not None else "bytes") if "receive" in e.get("type", "") else "") for e in events], "disconnect": script_tag}
+    case = {"calls": list(calls), "overlap_at": overlap, "server_send_fails_at": send_fail, "denial_extension_offered": ext, "script": [e.get("type", "")[10:] + ("/" + ("text" if e.get("text") is not None else "bytes") if "receive" in e.get("type", "") else "") for e in events], "disconnect": script_tag}
     prev_states = (0, 0)
 
     def V(key, detail=""):
@@ -816,6 +820,11 @@ def run(ctx):
             for tag, events in SCRIPTS:
                 run_scenario(ctx, calls, tag, events)
                 ctx.case_enum(nt)
+            if n <= 3:
+                for tag, events in SCRIPTS[::4]:
+                    run_scenario(ctx, calls, tag, events, ext=True)
+                    ctx.mon("denial-extension-offered")
+                    ctx.case_enum(nt)
     ctx.sample("exhaustive", {"calls": calls, "script": [e["type"] for e in events]})
     # overlapped pairs: call i is suspended inside the server's send() while call i+1 runs (two tasks sharing the socket)
     omax = 3 if ctx.quick else 4
@@ -951,7 +960,7 @@ def replay(ctx, case):
     for tag, events in SCRIPTS:
         sig = [e.get("type", "")[10:] + ("/" + ("text" if e.get("text") is not None else "bytes") if "receive" in e.get("type", "") else "") for e in events]
         if sig == case["script"] and str(tag) == str(case["disconnect"]):
-            run_scenario(ctx, case["calls"], tag, events, overlap=case.get("overlap_at"), send_fail=case.get("server_send_fails_at"))
+            run_scenario(ctx, case["calls"], tag, events, overlap=case.get("overlap_at"), send_fail=case.get("server_send_fails_at"), ext=bool(case.get("denial_extension_offered")))
             ctx.case(1)
             return
     print("script not found")
